@@ -42,6 +42,10 @@ def plan(tier, seed):
         shards.append({"item": {"kind": "gen", "seed": seed * 100003 + 20000 + i, "opts": {"names": "keywords", "services": True}},
                        "seed": seed + i, "k": 2 if tier == "quick" else 4})
     shards.append({"item": {"kind": "extra", "name": "deprecated_rpc_only"}, "seed": seed, "k": 2})
+    # the service matrix as generated with the other dataclass / typing options (stub and base must still agree, also for
+    # well-known request / response types, whose classes differ between the options)
+    shards.append({"item": {"kind": "svcmatrix"}, "seed": seed + 7, "k": 1, "opts": "pydantic_dataclasses"})
+    shards.append({"item": {"kind": "svcmatrix"}, "seed": seed + 8, "k": 1, "opts": "typing.310"})
     for d in ("service", "example_service", "googletypes_request", "googletypes_response", "import_service_input_message",
               "service_separate_packages", "googletypes_service_returns_empty", "service_uppercase"):
         if d in corpus.inputs_dirs():
@@ -76,6 +80,8 @@ def make_impl(base_cls, methods, bpk: BP, b: Build, rng_seed: int):
     ns: Dict[str, Any] = {}
 
     def response_for(rep_mi, k):
+        if getattr(PLAN, "default_responses", False) and k % 2 == 0:
+            return b.bp_class(rep_mi.full_name)()  # an all-default message is a response like any other
         g = Gen(b, random.Random(f"resp-{rng_seed}-{rep_mi.full_name}-{k}"), max_depth=1)
         g.budget = 12
         r = bpk.make(rep_mi, g.tree(rep_mi, 0, "random"))
@@ -212,7 +218,7 @@ async def drive(b: Build, shard, res: Result):
     call_ids = itertools.count(1)
     name = shard["item"].get("kind") + ":" + str(shard["item"].get("seed", shard["item"].get("dir", "")))
     for si, s in enumerate(b.services):
-        w0 = {"item": shard["item"], "service": s.full_name}
+        w0 = {"item": shard["item"], "service": s.full_name, "opts": shard.get("opts", "")}
         try:
             d = describe_service(b, s)
         except Exception as e:
@@ -275,6 +281,7 @@ async def drive(b: Build, shard, res: Result):
                                       "error": grpclib.const.Status.FAILED_PRECONDITION, "error_early": True})
                     if m["ss"]:
                         scenarios.append({"n_req": 3, "n_resp": 3, "src": "pingpong"})
+                scenarios.append({"n_req": 2 if m["cs"] else 1, "n_resp": 3 if m["ss"] else 1, "src": "list", "default_responses": True})
                 scenarios.append({"n_req": 1, "n_resp": 1, "src": "list", "error": grpclib.const.Status.NOT_FOUND, "error_after": 0})
                 if m["ss"]:
                     scenarios.append({"n_req": 1, "n_resp": 2, "src": "list", "error": grpclib.const.Status.ABORTED, "error_after": 1})
@@ -295,6 +302,29 @@ async def drive(b: Build, shard, res: Result):
                     for st, sd, sm, ct, cd, cm in combos:
                         await precedence_call(b, bpk, g, rng, stub_cls, channel, m, (st, sd, sm, ct, cd, cm), res, dict(w0, method=m["proto"]),
                                               next(call_ids), seen_kwargs, seen_server_md, name)
+            # call-level values belong to ONE call: on the same stub object, a call that overrides timeout / metadata is
+            # followed by calls that do not -- those must go out with the stub-level defaults again
+            if methods:
+                m = methods[(shard["seed"] + 1) % len(methods)]
+                stub = stub_cls(channel, timeout=31.0, metadata={"x-vf-level": "stub"})
+                plan_ = [({"timeout": 32.0, "metadata": {"x-vf-level": "call"}}, 32.0, "call"), ({}, 31.0, "stub"),
+                         ({"metadata": {"x-vf-level": "call2"}}, 31.0, "call2"), ({}, 31.0, "stub")]
+                for step, (kwargs_, want_to, want_md) in enumerate(plan_):
+                    cid = next(call_ids)
+                    PLAN.call_id, PLAN.log = cid, []
+                    PLAN.n_responses, PLAN.error_status, PLAN.error_early, PLAN.default_responses = 1, None, False, False
+                    res.counters["calls"] += 1
+                    res.counters["same_stub_sequence_calls"] += 1
+                    await client_call(b, bpk, g, rng, stub, m, {"n_req": 1, "n_resp": 1, "src": "list"}, kwargs_)
+                    kw = seen_kwargs.get(cid) or {}
+                    md = seen_server_md.get(cid)
+                    got_md = (md or {}).get("metadata", {}).get("x-vf-level") if md is not None else want_md
+                    if kw.get("timeout") != want_to or got_md != want_md:
+                        res.violation("precedence", ["same-stub-sequence", f"step{step}", "call-level-value-leaked-into-later-call"],
+                                      f"{name}: {m['route']}: call #{step} on one stub (call kwargs {kwargs_}) went out with timeout={kw.get('timeout')!r} "
+                                      f"metadata x-vf-level={got_md!r}; expected timeout={want_to} x-vf-level={want_md!r}",
+                                      dict(w0, method=m["proto"], scenario="same-stub-sequence"))
+                        break
             # metadata given as pairs with a repeated key (grpclib accepts a mapping or pairs): every value reaches the server,
             # from the stub-level default as well as from the call
             if methods:
@@ -419,9 +449,10 @@ async def one_call(b, bpk, g, rng, stub, m, sc, res: Result, w, cid, seen_kwargs
     PLAN.error_status = sc.get("error")
     PLAN.error_after = sc.get("error_after", 0)
     PLAN.error_early = sc.get("error_early", False)
+    PLAN.default_responses = sc.get("default_responses", False)
     res.counters["calls"] += 1
     res.counters["source:" + sc["src"]] += 1
-    scn = f"req{sc['n_req']}-resp{sc['n_resp']}-{sc['src']}" + (f"-err{sc['error'].name}@{'early' if sc.get('error_early') else sc.get('error_after', 0)}" if sc.get("error") else "") + ("-bulk" if sc.get("bulk") else "")
+    scn = f"req{sc['n_req']}-resp{sc['n_resp']}-{sc['src']}" + (f"-err{sc['error'].name}@{'early' if sc.get('error_early') else sc.get('error_after', 0)}" if sc.get("error") else "") + ("-bulk" if sc.get("bulk") else "") + ("-defaults" if sc.get("default_responses") else "")
     PLAN.bulk = sc.get("bulk", 0)
     res.distinct.add(f"{s.full_name}/{m['proto']}|{scn}")
     ww = dict(w, scenario=scn)
@@ -525,7 +556,7 @@ def _short(out):
 def run_shard(shard) -> Result:
     res = Result()
     try:
-        b = Build(item_protos(shard["item"])).full()
+        b = Build(item_protos(shard["item"]), shard.get("opts", "")).full()
     except BuildError as e:
         if e.stage == "protoc":
             res.discards["protoc-rejected-schema"] += 1
@@ -547,5 +578,5 @@ def run_shard(shard) -> Result:
 
 
 def replay(w):
-    r = run_shard({"item": w["item"], "seed": 0, "k": 3, "only_method": w.get("method")})
+    r = run_shard({"item": w["item"], "seed": 0, "k": 3, "only_method": w.get("method"), "opts": w.get("opts", "")})
     return [v for v in r.violations if v["witness"].get("service", w.get("service")) == w.get("service")]
